@@ -21,6 +21,26 @@ def _nontrivial(st):
   return None
 
 
+def _history_keys(b):
+  """Calls by what earlier calls of the same configurable did: a call must not depend on whether an earlier one (under
+  the same scope, same bindings, possibly after finalize) supplied a bound parameter itself."""
+  keys, seen = [], {}
+  for st in b[1:]:
+    o = st['out']
+    if o['op'] == 'Bind' and o['status'] == 'ok':
+      seen = {}
+    if o['op'] != 'Call' or o['status'] != 'ok':
+      continue
+    bound = set(x['param'] for x in st['cfg'] if x['sel'] == o['sel'])
+    k = (core.jdump(o['sel']), core.jdump(st['stack'][-1]))
+    supplied = (set(n for n, _ in o['ckw']) | set(['<pos>'] if o['pargs'] else [])) & (bound | {'<pos>'})
+    earlier = seen.get(k)
+    if earlier is not None and earlier and not supplied and bound:
+      keys.append(core.jdump(['call-after-overriding-call', st['locked'], o['sel'], sorted(earlier), sorted(bound)]))
+    seen[k] = (earlier or set()) | supplied
+  return keys
+
+
 def run(tier):
   rep = core.Report('C01', tier)
   rep.rule = ('TLC checks C01_Deliver (delivered arguments = declarative per-parameter expectation) for every call '
@@ -31,11 +51,15 @@ def run(tier):
   rep.assumptions = ['probe configurables generated per signature shape; tuple binding keys']
   if tier == 'quick':
     cc.model_check(rep, 'MC_Inject_quick')
-    cc.replay_behaviours(rep, 'GinCore_Sim_inject', num=250, nontrivial=_nontrivial, generate=1500)
+    cc.replay_behaviours(rep, 'GinCore_Sim_inject', num=250, nontrivial=_nontrivial, generate=2500, beh_keys=_history_keys)
   else:
     cc.model_check(rep, 'MC_Inject_quick')
     cc.model_check(rep, 'MC_Inject_thorough', timeout=3400)
-    cc.replay_behaviours(rep, 'GinCore_Sim_inject', num=4000, nontrivial=_nontrivial, generate=16000)
+    cc.replay_behaviours(rep, 'GinCore_Sim_inject', num=4000, nontrivial=_nontrivial, generate=16000, beh_keys=_history_keys)
+  # calls after finalize, and calls after calls that overrode a binding themselves: a small model with only Bind /
+  # Finalize / Call, so that these histories are frequent among its walks
+  k = 100 if tier == 'quick' else 1500
+  cc.replay_behaviours(rep, 'GinCore_Sim_lockedcalls', num=k, depth=9, nontrivial=_nontrivial, generate=k * 8, beh_keys=_history_keys, seed_off=41)
   cc.trace_validate(rep, 50 if tier == 'quick' else 600, seed_off=101)
   return rep.finish()
 
